@@ -22,7 +22,8 @@ ASSUMPTIONS = ["a crash leaves only the serialize() bytes; the restored instance
                "on shipped groups the post-word instance is cloned with copy.copy per inbound message instead of re-running the word"]
 EXHAUSTIVE = True
 WORDS = [""] + ["".join(w) for n in (1, 2, 3) for w in itertools.product("sr", repeat=n)]
-CONFIGS = [(b"", 0), (b"a", 1), (b"\x00", 2), (b"\xff\xfe", 3), (b"a\x00b", 4), (b"p" * 65, 5)]
+CONFIGS = [(b"", 0), (b"a", 1), (b"\x00", 2), (b"\xff\xfe", 3), (b"a\x00b", 4), (b"p" * 65, 5),
+           (b"pw\n\n", 1), (b"  pw  ", 2), (b"\r\n\r\n", 3), (b"PW\x00\x00", 4)]
 
 
 def bounds(tier):
@@ -232,7 +233,7 @@ def run(tier, seed):
             continue
         for side in "ABS":
             for x in range(inst.q):
-                cfgs = CONFIGS if (inst.kind == "int" and inst.q <= 11) or not quick else CONFIGS[:1] + CONFIGS[3:5]
+                cfgs = CONFIGS if (inst.kind == "int" and inst.q <= 11) or not quick else CONFIGS[:1] + CONFIGS[3:5] + CONFIGS[6:8]
                 tasks.append(("small", (name, side, [x], cfgs)))
     for name in T.SHIPPED:
         inst, why = T.try_get(name)
@@ -243,7 +244,7 @@ def run(tier, seed):
         xs = [xs[0], xs[4]] if quick else xs[:6]
         for side in "ABS":
             for i, x in enumerate(xs):
-                for cfg in ([CONFIGS[(i + "ABS".index(side)) % 6], CONFIGS[(i + 3) % 6]] if quick else CONFIGS):
+                for cfg in ([CONFIGS[(i + "ABS".index(side)) % 6], CONFIGS[6 + (i + "ABS".index(side)) % 4]] if quick else CONFIGS):
                     tasks.append(("shipped", (name, side, x, cfg)))
     tasks.sort(key=lambda t: -(T.get(t[1][0]).ref.esize * (30 if t[0] == "shipped" else T.get(t[1][0]).q)))
     core.pmerge(_dispatch, tasks, acc)
